@@ -14,6 +14,8 @@ Transfers == { Xfer(c, b, 1000, fw, acts) : c \in {0, 1}, b \in {"uusdc", "ustak
 WQ(kind, by, pid, limit, walk, rev, ct) == QueryIn([DefQ EXCEPT !.kind = kind, !.by = by, !.pid = pid, !.limit = limit, !.walk = walk, !.reverse = rev, !.countTotal = ct])
 Walks == { WQ(k, by, p, l, w, r, ct) : k \in {"amounts", "counts"}, by \in {"src", "dst"}, p \in {"IBC", "CCTP", "HYP", "INT", "PUNKNOWN"},
              l \in (IF StatSet = "full" THEN {1, 2, 3, 100, 0} ELSE {1, 2, 100}), w \in {"key", "offset"}, r \in BOOLEAN, ct \in BOOLEAN }
+         \* requests WITHOUT a pagination block (the SDK's default page), continued by next-key
+         \cup { WQ(k, by, p, 0, "nopage", FALSE, FALSE) : k \in {"amounts", "counts"}, by \in {"src", "dst"}, p \in {"IBC", "CCTP", "HYP", "INT"} }
 DQ(kind, sc, dp, dc, dn) == QueryIn([DefQ EXCEPT !.kind = kind, !.by = "direct", !.sp = "IBC", !.sc = sc, !.dp = dp, !.dc = dc, !.denom = dn])
 Directs == { DQ(k, sc, dst[1], dst[2], dn) : k \in {"amounts", "counts"}, sc \in {"channel-0", "channel-1"},
                dst \in { <<"CCTP", "0">>, <<"CCTP", "1">>, <<"CCTP", "2">>, <<"HYP", "1">>, <<"HYP", "2">>, <<"INT", "noble">>, <<"IBC", "channel-0">> },
